@@ -17,6 +17,7 @@ RULE = (
     "before a change point never change; (6) long-run statistical monitor (20000 steps): mean, deviation, excess "
     "kurtosis and pairwise correlation of log-returns within 6.5 standard errors. Case = one configuration; "
     "distinct = hash(parameters, changes); non-trivial = >=2 markets with a correlation or >=1 change point."
+    " Since the seeded rounds: requests refused by design (negative volatility, correlation outside (-1,1), same market twice) followed by normal use, changes one step before / on / after the generation horizon, the algebraic probe judged against the monitor's own parameter model, and a case kind 'config' (runner drive: market types in any declaration order giving, omitting or zeroing drift and volatility; closed form for zero volatility, log-return scale otherwise)."
 )
 ASSUMPTIONS = [
     "the generator draws its normals through numpy Generator.standard_normal (recorded by a proxy); if no draw is "
